@@ -66,6 +66,7 @@ def handler_env(S, meth, names=None, cls=CLS):
         return real_insert(I, a, k)
     tree.methods["insertElement"] = insert
     tree.methods["reconstructActiveFormattingElements"] = lambda I, a, k: ops.items.append(("reconstruct",))
+    tree.methods["insertText"] = lambda I, a, k: ops.items.append(("text", a[0]))
     real_implied = tree.methods["generateImpliedEndTags"]
 
     def implied(I, a, k):
@@ -814,3 +815,26 @@ IN_FRAMESET = [
 
 for _m, _names, _fn in IN_FRAMESET:
     globals()["InFrameset_" + _m] = _mk(_m, _names, _fn, "InFramesetPhase")
+
+
+# ------------------------------------------------------------------------------------------- "after body" mode
+# --- whitespace: processed by the in-body rules: reconstruct the active formatting elements, insert the characters
+def spec_ab_space(old, self, token, result):
+    return result is None and ops_are(self, [("reconstruct",), ("text", token["data"])])
+
+
+# --- any other character, start tag or end tag: parse error; switch to "in body"; reprocess
+def spec_ab_back_to_body(old, self, token, result):
+    return (same_object(result, token) and ops_are(self, [])
+            and same_object(self.parser.phase, self.parser.phases["inBody"]))
+
+
+AFTER_BODY = [
+    ("processSpaceCharacters", None, spec_ab_space),
+    ("processCharacters", None, spec_ab_back_to_body),
+    ("startTagOther", None, spec_ab_back_to_body),
+    ("endTagOther", None, spec_ab_back_to_body),
+]
+
+for _m, _names, _fn in AFTER_BODY:
+    globals()["AfterBody_" + _m] = _mk(_m, _names, _fn, "AfterBodyPhase")
